@@ -10,6 +10,13 @@ META = dict(
 )
 
 
+def big_histories():
+    # rings of more than 2^16 elements: filled inside the harness, both iterators walked over all of them, then a few operations
+    # (validated with RingBufferTraceBig.cfg: every observation against the model, without the quadratic per-state invariants)
+    for ty, cap, k in ((32, 70000, 66000), (8, 65537, 65537)):
+        yield ['init %d %d' % (cap, ty), 'fill %d 3' % k, 'get', 'put 9', 'get'] + (['fill %d 11' % (cap - k), 'put 1', 'override 1', 'put 2', 'get'] if cap > k else ['put 1', 'override 1', 'put 2', 'get'])
+
+
 def histories(rnd, count, nops):
     for _ in range(count):
         ty = rnd.choice([8, 32])
@@ -57,6 +64,7 @@ def run(tier):
     rnd = random.Random(vf.seed())
     vf.trace_flow(v, 'RingBufferTrace.tla', 'RingBufferTrace.cfg', 'ring',
                   histories(rnd, 48 if quick else 320, 300 if quick else 1000), 'rbtrace')
+    vf.trace_flow(v, 'RingBufferTrace.tla', 'RingBufferTraceBig.cfg', 'ring', list(big_histories()), 'rbbig')
     v.cov['rule'] = ('E1: every transition of the TLC state graph of RingBuffer.tla (capacities 1..MaxCap, alphabet {1,2}, '
                      'element types u8/u32, override on/off) executed on the real ring buffer, all paths to the stated depth, '
                      'random walks; E2: random histories (capacity up to 257) validated by TLC. '
